@@ -94,7 +94,7 @@ PROPS = {
     "C09": {
         "modules": ["PgBifrost.Props.C09"],
         "components": ["parser"],
-        "required_theorems": ["PgBifrost.Props.C09.parse_total", "PgBifrost.Props.C09.parse_render_partial"],
+        "required_theorems": ["PgBifrost.Props.C09.parse_total", "PgBifrost.Props.C09.parse_render"],
         "partial": "round trip proved for every well-formed change whose printed tuples are non-empty (finding empty_tuple: "
                    "relations without columns make the decoder fail; recorded)",
         "assumptions": ["TestDecoding.render is the output grammar of contrib/test_decoding with default options "
